@@ -24,7 +24,7 @@ from typing import Dict, List, Optional, Set, Tuple
 from sa import astctor, g4, globalsx
 from sa.callgraph import callgraph
 from sa.cfg import CFG, describe_path
-from sa.core import AnalysisError, Finding, FuncInfo, Program, Report, dotted, program, src, walk_no_nested
+from sa.core import AnalysisError, Finding, FuncInfo, Program, Report, dotted, norm_locals, program, src, walk_no_nested
 
 CPP = "AST/Grammar/_cpp_parser/bindings.cpp"
 PARSE_ROOTS = ["vtlengine.API.create_ast", "vtlengine.AST.ASTComment.create_ast_with_comments"]
@@ -548,5 +548,46 @@ def run(rep: Report, tier: str) -> None:
     _check_state(P, rep)
     _check_lock(P, rep)
     _check_raises(P, G, rep)
+    rep.rule("R23.6", "syntax-error messages: script text is never the receiver of str.format (braces in the quoted source line)")
+    _check_format_receivers(P, rep)
     rep.assumptions = ["bindings.cpp is analysed as text (no C++ front end with the project's headers is available)",
                        "ANTLR error listeners receive every lexer and parser error", "RC.<NAME> constants are the grammar's alternative labels in SNAKE_CASE"]
+
+
+
+def _check_format_receivers(P: Program, rep: Report) -> None:
+    """R23.6  The syntax-error exception quotes the offending source line.  Text that comes from the script must never be the RECEIVER of
+    str.format / `%`: `{`, `}` and `%` are ordinary characters of a VTL script (set literals), and formatting a template that
+    contains them raises KeyError / ValueError / IndexError - the caller then gets a raw Python error without line and column.
+    Rule: in vtlengine.Exceptions, the receiver of every `.format(...)` is a constant, a catalogue entry (centralised_messages[...]),
+    or a class constant - never a value that has had parameter data concatenated into it."""
+    n = 0
+    for f in P.iter_functions():
+        if f.module.name != "vtlengine.Exceptions":
+            continue
+        params = set(f.params) - {"self", "cls"}
+        a_ = f.node.args  # type: ignore[attr-defined]
+        params |= {x.arg for x in a_.kwonlyargs}
+        tainted: Set[str] = set(params)
+        for _ in range(4):
+            for st in walk_no_nested(f.node):
+                if isinstance(st, (ast.Assign, ast.AugAssign, ast.AnnAssign)) and st.value is not None:
+                    if any(isinstance(x, ast.Name) and x.id in tainted for x in ast.walk(st.value)):
+                        tg = st.targets if isinstance(st, ast.Assign) else [st.target]
+                        tainted |= {t.id for t in tg if isinstance(t, ast.Name)}
+        for c in walk_no_nested(f.node):
+            recv = None
+            if isinstance(c, ast.Call) and isinstance(c.func, ast.Attribute) and c.func.attr in ("format", "format_map"):
+                recv = c.func.value
+            elif isinstance(c, ast.BinOp) and isinstance(c.op, ast.Mod) and not isinstance(c.left, ast.Constant):
+                recv = c.left
+            if recv is None:
+                continue
+            n += 1
+            rep.instance("R23.6", f"format-receiver/{f.qualname}/{norm_locals(src(recv), f.node)[:40]}", nontrivial=True)
+            in_index = {id(y) for x in ast.walk(recv) if isinstance(x, ast.Subscript) for y in ast.walk(x.slice)}  # a key INTO a table is not text of the template
+            if any(isinstance(x, ast.Name) and x.id in tainted and id(x) not in in_index for x in ast.walk(recv)):
+                rep.add(_f("R23.6", f"format-receiver/{f.qualname}", f.module.rel, c.lineno, f.qualname,
+                           f"`{src(c)[:80]}` formats a template that already contains caller-supplied text ({sorted(x.id for x in ast.walk(recv) if isinstance(x, ast.Name) and x.id in tainted and id(x) not in in_index)}): "
+                           f"for a syntax error the quoted source line is script text, and a `{{` or `}}` in it (a set literal) makes str.format raise KeyError / ValueError instead of the VTL error"))
+    rep.floor("R23.6 format receivers in vtlengine.Exceptions", n, 3)
